@@ -353,6 +353,9 @@ def m5(ctx):
             return ("field", strip_role(r[1])[1], r[2])
         if isinstance(r, tuple) and r[0] == "upvar":
             return ("upvar", r[1])
+        # the applier is a closure inside the constructor and the captured pattern resolves to where it was made (`parse(a)`)
+        if isinstance(r, tuple) and not role_mentions_param(r, "substs") and not role_mentions_param(r, "eg") and any(isinstance(x, tuple) and x[0] == "param" for x in role_walk(r)):
+            return ("expr", role_str(r, 12))
         return None
 
     sides = None
